@@ -709,6 +709,30 @@ class ndarray:
                 if builtins.bool(b):      # symbolic mask: forks per element
                     out.append(v)
             return ndarray._new(out, (len(out),), self.dtype)
+        if isinstance(key, tuple) and key and len(key) <= self.ndim and \
+                builtins.any(isinstance(k, ndarray) and k.ndim > 1 for k in key) and \
+                builtins.all((isinstance(k, ndarray) and k.dtype.kind in 'iu') or
+                             (isinstance(k, (builtins.int, SymInt)) and not isinstance(k, builtins.bool)) or
+                             (isinstance(k, (list, tuple)) and builtins.all(isinstance(j, (builtins.int, SymInt)) for j in k))
+                             for k in key):
+            # pure advanced indexing with index arrays that broadcast against each other:
+            # result shape = broadcast(index shapes) + remaining axes, always a copy
+            idx = [k if isinstance(k, ndarray) else array(k, dtype=int64) for k in key]
+            bshape = ()
+            for k in idx:
+                bshape = _bshape(bshape, k.shape)
+            cols = [_broadcast_to(k, bshape) for k in idx]
+            rest = tuple(self.shape[len(idx):])
+            inner = _prod(rest)
+            steps = _c_steps(self.shape)
+            flat = self._flat()
+            vals = []
+            for t in range(_prod(bshape)):
+                p0 = 0
+                for ax, col in enumerate(cols):
+                    p0 += _norm_index(col[t], self.shape[ax], ax) * steps[ax]
+                vals.extend(flat[p0:p0 + inner])
+            return ndarray._new(vals, tuple(bshape) + rest, self.dtype)
         if isinstance(key, ndarray) and key.dtype.kind in 'iu' and key.ndim > 1 and self.ndim >= 1:
             # gather along the first axis with an N-d integer index array: result shape is
             # key.shape + self.shape[1:], always a copy
